@@ -405,6 +405,12 @@ def sync_prehash_obs():
                note='every block state CHG/REP, recorded hash, digests, hash size 2..16, migration flag, copy flag; memhash by contract')]
 
 
+SYNC_WERR = dict(region='sync_werr', file='cmdline/sync.c', begin='/* handle errors reported */', end='/* mark the state as needing write */', end_first_after=True, max_lines=40, expect_loops=1,
+                 proto='static void region_sync_werr(struct snapraid_state *state, int *writer_error, block_off_t blockcur, unsigned *error_p, unsigned *io_error_p, int *bailed)',
+                 prologue='\tunsigned j, error = *error_p, io_error = *io_error_p;',
+                 epilogue='\tgoto out;\nbail:\n\t*bailed = 1;\nout:\n\t*error_p = error; *io_error_p = io_error;')
+
+
 def sync_hash_obs():
     return [Ob('sync.hash.region', 'harness/h_sync.c', 'h_sync_hash', inject=[SYNC_COMPLETE, SYNC_HASH], defs={'VERIF_HASH_REGION': None}, unwind=18, small_path=True, timeout=900, mem=8, cost=8, replay=False,
                functions=['state_sync_process: region "now compute the hash" .. "if we have only silent errors" (cmdline/sync.c, extracted mechanically)', 'block_has_updated_hash / block_has_invalid_parity / hash_is_unique (cmdline/elem.h)'],
@@ -605,6 +611,19 @@ def hash_obs(tier):
             for n in lens]
 
 
+def c08(tier, seed):
+    c06u = [o for o in PROPS['C06']['obligations'](tier, seed) if o.name == 'sync.complete.region']
+    c15u = [o for o in PROPS['C15']['obligations'](tier, seed) if o.name in ('scrub.mark.region', 'scrub.classify.region')]
+    return [Ob('io.mono.writer_errors', 'harness/h_io.c', 'h_io_mono_writer', unwind=6, small_path=True, timeout=900, mem=8, cost=5, object_bits=12,
+               functions=['io_parity_write_mono (cmdline/io.c)', 'io_write_next_mono (cmdline/io.c)'],
+               note='two parity levels, every outcome of each writer function; the writer function is a stub that sets the task state'),
+            Ob('sync.writer_errors.region', 'harness/h_sync.c', 'h_sync_werr', route='dfcc', replace=['info_set'], inject=[SYNC_COMPLETE, SYNC_WERR], defs={'VERIF_WERR_REGION': None}, unwind=8, small_path=True,
+               timeout=900, mem=8, cost=5, replay=False,
+               functions=['state_sync_process: region "handle errors reported" .. "mark the state as needing write" (cmdline/sync.c, extracted mechanically)'],
+               note='every vector of writer error counts and every error limit; info_set replaced by a recording contract (dfcc)',
+               expect_fail=['a parity write I/O error leaves some stripe marked bad'])] + c06u + c15u
+
+
 # ---------------------------------------------------------------- composed properties
 def c16(tier, seed):
     """format stability = every constant / encoding is pinned to a definition that is not in the repo"""
@@ -624,6 +643,7 @@ def c01(tier, seed):
 
 
 PROPS['C16'] = dict(level='other', obligations=c16)
+PROPS['C08'] = dict(level='other', obligations=c08)
 PROPS['C04'] = dict(level='other', obligations=c04)
 PROPS['C01'] = dict(level='other', obligations=c01)
 
@@ -675,3 +695,12 @@ MANIFEST_TEXT.update({
 })
 for k in ('C01', 'C04', 'C05', 'C06', 'C16', 'C19'):
     NOT_YET.pop(k, None)
+
+
+PROPS['C08'].update(
+    explanation='The SEQUENTIAL part of the property: (1) reader side - sync\'s completion region never records a block as synced when the stripe had an I/O error and always leaves that stripe marked bad; scrub\'s classification region turns a read EIO into an I/O error on this stripe and its book-keeping region marks the stripe bad (keeping time and marks); other stripes are unaffected (per-stripe flags). (2) writer side - the single-threaded I/O path reports every parity write that ended in an error state to the sync loop (genuine defect found and fixed: it reported none), and the loop counts it so that the command fails and stops at the error limit; but no stripe is marked bad for a parity WRITE error (KNOWN-FINDING, shown with the real binary by fault injection). The asynchronous writer queue (errors collected one stripe later, errors after the last collection never read) depends on thread timing and is not decided.',
+    trusted_base=['region extraction of state_sync_process / state_scrub_process', 'info_set, fs_*, raid_gen by recording contracts (dfcc replace)', 'the writer function is a stub that sets the task state'],
+    assumptions=['threads: cbmc contracts are sequential; io.c worker threads, the ring of task slots and the one-stripe delay of the error report are not modelled', 'the diagnostic text and exit status of the whole command are not function-level statements; only the counters that drive them are checked'],
+    not_covered=['io.c threaded path (io_writer_thread, io_writer_step, io_write_next_thread)', 'parity read errors during the in-memory repair of sync', 'scrub parity read path', 'error limit handling of readers beyond the classification regions'])
+MANIFEST_TEXT['C08'] = dict(level_text='Narrow: the per-stripe consequences of an I/O error (no BLK, bad mark) and the single-threaded accounting of parity write errors are sequential statements and are decided (one defect fixed, one recorded); the asynchronous queue is not - level other.',
+                            design_ref='DESIGN.md sections 4 and 6', level_note='threads not modelled; writer function stubbed; known finding: parity write errors never mark a stripe bad', technique='CBMC drivers / dfcc on real cmdline/io.c (mono path) + extracted regions of sync.c / scrub.c')
